@@ -1,7 +1,7 @@
 /-
 Every step of the world preserves `WInv` (as long as no process has died).
 -/
-import SshuttleModel.Lemmas.TunnelInv
+import SshuttleModel.Lemmas.SockInv
 
 namespace Sshuttle.Tunnel
 open Sshuttle.Mux (Frame)
@@ -159,7 +159,7 @@ theorem WInv.ofFlows (w w' : World) (hcm : w'.cm = w.cm) (hsm : w'.sm = w.sm) (h
   · rw [hch, hcm]; exact hw.ownedC
   · rw [hch, hsm]; exact hw.ownedS
 
-theorem WInv.rmC {w : World} (hw : WInv w) : WInv w.rmC := by
+theorem WInv.rmC {w : World} (hw : WInv w) (hsock : ∀ (j : Nat) (f : Flow), w.flows[j]? = some f → FlowSock f) : WInv w.rmC := by
   unfold World.rmC
   have hchans : chans { w with flows := w.flows.map fun f =>
       match f.c with
@@ -196,8 +196,10 @@ theorem WInv.rmC {w : World} (hw : WInv w) : WInv w.rmC := by
         · -- up: the source handler disappears
           have hu := h0.up
           simp only [upSrc, hc] at hu
-          have h1 := hu.srcStep (SrcStep.remove _ rfl)
-          have h2 := h1.srcStep (SrcStep.flags _ true true (fun _ => rfl) (fun _ => rfl))
+          have hdead := ((hsock j f0 hf).1 p hc).2 hok'
+          have h1 := hu.srcStep (SrcStep.remove _ rfl (Or.inl hdead.2.2.2.2.1))
+          have h2 := h1.srcStep (SrcStep.flags _ true true true (fun _ => rfl) (fun _ => rfl) (fun _ => rfl)
+            (fun _ => Or.inl hdead.2.2.2.1))
           simpa [upSrc, upSink, goneSrc, SV] using h2
         · -- down: the sink handler disappears
           have hd := h0.down
@@ -209,7 +211,7 @@ theorem WInv.rmC {w : World} (hw : WInv w) : WInv w.rmC := by
             (fun _ => Or.inl hok'))
           simpa [downSrc, downSink, goneSink, KV] using h2
 
-theorem WInv.rmS {w : World} (hw : WInv w) : WInv w.rmS := by
+theorem WInv.rmS {w : World} (hw : WInv w) (hsock : ∀ (j : Nat) (f : Flow), w.flows[j]? = some f → FlowSock f) : WInv w.rmS := by
   unfold World.rmS
   have hchans : chans { w with flows := w.flows.map fun f =>
       match f.s with
@@ -254,8 +256,10 @@ theorem WInv.rmS {w : World} (hw : WInv w) : WInv w.rmS := by
           simpa [upSrc, upSink, goneSink, KV, hev] using h2
         · have hd := h0.down
           simp only [downSrc, hc] at hd
-          have h1 := hd.srcStep (SrcStep.remove _ rfl)
-          have h2 := h1.srcStep (SrcStep.flags _ true true (fun _ => rfl) (fun _ => rfl))
+          have hdead := ((hsock j f0 hf).2 p hc).2 hok'
+          have h1 := hd.srcStep (SrcStep.remove _ rfl (Or.inl hdead.2.2.2.2.1))
+          have h2 := h1.srcStep (SrcStep.flags _ true true true (fun _ => rfl) (fun _ => rfl) (fun _ => rfl)
+            (fun _ => Or.inl hdead.2.2.2.1))
           simpa [downSrc, downSink, goneSrc, SV, hev] using h2
 
 /-! ### accept -/
@@ -444,8 +448,16 @@ theorem FlowOK.acceptS {cm sm cm' : MuxL} {f : Flow} {p : ProxyS} (h : FlowOK cm
       simpa using h1
     · show DirInv f.chan (downSrc sm _) (downSink _)
       rw [eD]
+      have hstop : hasStop f.chan cm.out = true := by rw [he]; simp [hasStop, isStop, hch, hc]
+      have hown := hup.stopOk (by rw [upSrc_out]; exact hstop)
+      have hk : (downSink f).sawShut = true := by
+        cases hcc : f.c with
+        | none => exact hdn.goneShut (by simp [downSink, hcc, goneSink]) (by simp [downSink, hcc, goneSink])
+        | some q =>
+          simp only [upSrc, hcc, SV] at hown
+          exact hdn.shutOk (by simp [downSink, hcc, KV]) (by simp [downSink, hcc, KV]; exact hown)
       simp only [downSrc, hs] at hdn
-      have h2 := hdn.srcStep (SrcStep.flags _ p.sw.shutR true id (fun _ => rfl))
+      have h2 := hdn.srcStep (SrcStep.flags _ p.sw.shutR true p.sw.shutW id (fun _ => rfl) id (fun _ => Or.inr hk))
       simp only [downSrc, SV] at h2 ⊢
       simpa using h2
     · intro q hq
@@ -501,8 +513,21 @@ theorem FlowOK.acceptC {cm sm sm' : MuxL} {f : Flow} {p : ProxyS} (h : FlowOK cm
     refine ⟨?_, ?_, ?_, h.schan⟩
     · show DirInv f.chan (upSrc cm _) (upSink _)
       rw [eU]
+      have hstop : hasStop f.chan sm.out = true := by rw [he]; simp [hasStop, isStop, hch, hc]
+      have hown := hdn.stopOk (by rw [downSrc_out]; exact hstop)
+      have hk : (upSink f).sawShut = true := by
+        cases hcc : f.s with
+        | none =>
+          cases hev : f.sEver with
+          | true => exact hup.goneShut (by simp [upSink, hcc, goneSink, hev]) (by simp [upSink, hcc, goneSink])
+          | false =>
+            simp only [downSrc, hcc, goneSrc, hev] at hown
+            cases hown
+        | some q =>
+          simp only [downSrc, hcc, SV] at hown
+          exact hup.shutOk (by simp [upSink, hcc, KV]) (by simp [upSink, hcc, KV]; exact hown)
       simp only [upSrc, hs] at hup
-      have h2 := hup.srcStep (SrcStep.flags _ p.sw.shutR true id (fun _ => rfl))
+      have h2 := hup.srcStep (SrcStep.flags _ p.sw.shutR true p.sw.shutW id (fun _ => rfl) id (fun _ => Or.inr hk))
       simp only [upSrc, SV] at h2 ⊢
       simpa using h2
     · show DirInv f.chan (downSrc sm' _) (downSink _)
@@ -655,7 +680,7 @@ theorem FlowOK.connectS {cm sm cm' : MuxL} {f : Flow} (h : FlowOK cm sm f) (fr :
     simpa [f4] using h1
   · have hd := h.down
     simp only [downSrc, hsn, hev] at hd
-    have h1 := hd.srcStep (SrcStep.create _ rfl s.shutR)
+    have h1 := hd.srcStep (SrcStep.create _ rfl s.shutR s.shutW (fun h0 => by cases h0))
     have e2 := downSink_congr { f with s := some { sw := s, mw := { chan := fr.chan }, sockFirst := false }, sEver := true, dst := e } f rfl rfl
     show DirInv f.chan (downSrc sm _) (downSink _)
     rw [e2]
@@ -944,7 +969,8 @@ theorem nodup_of_prefix {l l' : List Nat} (h : l <+: l') (hn : l'.Nodup) : l.Nod
   exact (List.nodup_append.mp hn).1
 
 /-- **Every step preserves the world invariant** while no process has died. -/
-theorem WInv.stepRaw {w : World} (hw : WInv w) (hdead : w.died = none) (st : Step) (hg : GoodStep st)
+theorem WInv.stepRaw {w : World} (hw : WInv w) (hsock : ∀ (j : Nat) (f : Flow), w.flows[j]? = some f → FlowSock f)
+    (hdead : w.died = none) (st : Step) (hg : GoodStep st)
     (hn : (chans (w.stepRaw st)).Nodup) (hd : (w.stepRaw st).died = none) : WInv (w.stepRaw st) := by
   have hn0 : (chans w).Nodup := nodup_of_prefix (chans_stepRaw_prefix w st) hn
   unfold World.stepRaw at hn hd ⊢
@@ -964,8 +990,8 @@ theorem WInv.stepRaw {w : World} (hw : WInv w) (hdead : w.died = none) (st : Ste
       · exact hw.deliverS hn0 conn hd
     | removeDead e =>
       cases e
-      · exact hw.rmC
-      · exact hw.rmS
+      · exact hw.rmC hsock
+      · exact hw.rmS hsock
     | checkFull e =>
       cases e
       · obtain ⟨extra, he, hf⟩ := checkFullness_out w.cm w.bufsize
